@@ -63,7 +63,7 @@ impl Inv {
 }
 
 pub fn invoke(ctx: &Ctx, inv: &Inv, tag: &str) -> RunOut {
-    let dir = ctx.scratch.join(format!("inv-{}", tag));
+    let dir = ctx.fresh_dir(&format!("inv-{}", tag));
     let _ = std::fs::create_dir_all(&dir);
     let mut args: Vec<String> = Vec::new();
     let mut stdin: Option<Vec<u8>> = None;
